@@ -332,7 +332,7 @@ def rand_offset(rng, cur_len, far):
         return cur_len + rng.randrange(1, 40)
     if r < 0.95:
         return cur_len + rng.randrange(40, 2000)
-    return cur_len + rng.randrange(2000, far)
+    return cur_len + rng.randrange(2000, max(far, 2001))
 
 
 def rand_datav(rng, cur_len, far, nmax=3):
